@@ -226,7 +226,7 @@ type Case struct {
 	Leaves []LeafPlan `json:"leaves"`      // in the order of leavesOf
 }
 
-var prefixes = []string{"app", "APP", "My_App", "my-app", "svc9"}
+var prefixes = []string{"app", "APP", "My_App", "my-app", "svc9", "app_", "my_app"}
 
 func genCase(t *rapid.T) Case {
 	c := Case{Family: rapid.SampledFrom(families).Draw(t, "family"), Prefix: rapid.SampledFrom(prefixes).Draw(t, "prefix"), File: rapid.SampledFrom([]string{"json", "yaml"}).Draw(t, "file")}
